@@ -49,3 +49,24 @@ pub assume_specification<T, F: FnOnce(T) -> bool> [Option::<T>::is_some_and] (o:
         o is Some ==> f.ensures((o->0,), r);
 pub assume_specification<T, A: std::alloc::Allocator> [VecDeque::<T, A>::is_empty] (v: &VecDeque<T, A>) -> (r: bool)
     ensures r == (v@.len() == 0);
+
+// ---- added after seeded change C16-r4m2 (`connecting` filters wildcard local addresses out of the arguments of
+// `from_binding` with `Option::filter(|ip| !ip.is_unspecified())`): without these three the changed body leaves the
+// verifier's subset (fn stubbed, conn.* undecided); with them it is verified text and `conn.sorted_list_is_used` is decided ----
+/// `Ipv4Addr::is_unspecified` ("the special 'unspecified' address 0.0.0.0") - an uninterpreted attribute of the address:
+/// nothing is assumed about WHICH addresses have it, only that the method is a function of the address
+pub uninterp spec fn v4_is_unspecified(ip: Ipv4Addr) -> bool;
+pub assume_specification [Ipv4Addr::is_unspecified] (ip: &Ipv4Addr) -> (r: bool)
+    ensures r == v4_is_unspecified(*ip);
+/// `Ipv6Addr::is_unspecified` ("the special 'unspecified' address ::")
+pub uninterp spec fn v6_is_unspecified(ip: Ipv6Addr) -> bool;
+pub assume_specification [Ipv6Addr::is_unspecified] (ip: &Ipv6Addr) -> (r: bool)
+    ensures r == v6_is_unspecified(*ip);
+/// `Option::filter(p)`: `None` stays `None`; `Some(x)` stays `Some(x)` iff the predicate accepts `&x` (through the
+/// closure's own contract - a closure without one leaves the result undetermined, so nothing can be concluded from it)
+pub assume_specification<T, P: FnOnce(&T) -> bool> [Option::<T>::filter] (o: Option<T>, p: P) -> (r: Option<T>)
+    requires o is Some ==> p.requires((&o->0,)),
+    ensures
+        o is None ==> r is None,
+        r is Some ==> r == o,
+        o is Some ==> p.ensures((&o->0,), r is Some);
